@@ -38,6 +38,7 @@ import (
 	"go/printer"
 	"go/token"
 	"go/types"
+	"sort"
 	"strings"
 
 	"golang.org/x/tools/go/packages"
@@ -1977,6 +1978,176 @@ func (x *startupSup) startupPoolRun(b *strings.Builder) {
 	b.WriteString("def onErrAwaitedCases : List ErrCase := [" + strings.Join(cases, ", ") + "]\n\n")
 }
 
+// startupToWait (round 4): the termination bookkeeping of the await loop of the pool — `ah.toWait`: its initial value
+// (`const resultsToWait` of newAwaitRunHandle), the loop condition of awaitRun, and for every receive case of the select and for
+// checkAllInstancesAreFinished (after its guard) how often `toWait--` runs at the TOP LEVEL of the block (unconditionally) and
+// whether the channel the case received from is put out of the select (`ah.<ch> = nil`) there.  A `toWait--` anywhere else
+// (inside an `if`, a loop, a closure) makes gen fail.
+func (x *startupSup) startupToWait(b *strings.Builder) {
+	// initial value
+	nh := startupFindMethod(x.pkg, "instancePool", "newAwaitRunHandle")
+	if nh == nil {
+		x.t.errs = append(x.t.errs, "method (*instancePool).newAwaitRunHandle not found")
+		return
+	}
+	consts := map[string]string{}
+	initial := ""
+	ast.Inspect(nh.Body, func(n ast.Node) bool {
+		switch v := n.(type) {
+		case *ast.ValueSpec:
+			for i, id := range v.Names {
+				if i < len(v.Values) {
+					if tv, ok := x.pkg.TypesInfo.Types[v.Values[i]]; ok && tv.Value != nil {
+						consts[id.Name] = tv.Value.ExactString()
+					}
+				}
+			}
+		case *ast.KeyValueExpr:
+			if k, ok := v.Key.(*ast.Ident); ok && k.Name == "toWait" {
+				if tv, ok := x.pkg.TypesInfo.Types[v.Value]; ok && tv.Value != nil {
+					initial = tv.Value.ExactString()
+				} else {
+					x.fail(v, "toWait initialised with a non-constant %s", x.src(v.Value))
+				}
+			}
+		}
+		return true
+	})
+	if initial == "" {
+		x.t.errs = append(x.t.errs, "newAwaitRunHandle: no constant initial value of the field toWait")
+		return
+	}
+	fd := startupFindMethod(x.pkg, "runAwaitHandle", "awaitRun")
+	if fd == nil || len(fd.Body.List) == 0 {
+		return
+	}
+	recv := fd.Recv.List[0].Names[0].Name
+	loop, ok := fd.Body.List[0].(*ast.ForStmt)
+	if !ok || loop.Init != nil || loop.Post != nil || loop.Cond == nil {
+		x.fail(fd, "awaitRun does not begin with `for <cond> {`")
+		return
+	}
+	cond := ""
+	if be, ok := loop.Cond.(*ast.BinaryExpr); ok {
+		l, r := x.src(be.X), x.src(be.Y)
+		op := map[token.Token]string{token.GTR: ">", token.GEQ: "≥", token.NEQ: "≠", token.LSS: "<", token.LEQ: "≤"}[be.Op]
+		switch {
+		case op != "" && l == recv+".toWait" && (r == "0" || r == "1"):
+			cond = "decide (toWait " + op + " (" + r + " : Int))"
+		case op != "" && r == recv+".toWait" && (l == "0" || l == "1"):
+			cond = "decide ((" + l + " : Int) " + op + " toWait)"
+		}
+	}
+	if cond == "" {
+		x.fail(loop, "loop condition of awaitRun %s", x.src(loop.Cond))
+		return
+	}
+	// count the top-level `recv.toWait--` of a block; any other occurrence is refused
+	count := func(list []ast.Stmt, what string) (dec int, nilled map[string]bool) {
+		nilled = map[string]bool{}
+		total := 0
+		for _, st := range list {
+			ast.Inspect(st, func(n ast.Node) bool {
+				switch v := n.(type) {
+				case *ast.IncDecStmt:
+					if x.src(v.X) == recv+".toWait" {
+						total++
+					}
+				case *ast.AssignStmt:
+					for _, l := range v.Lhs {
+						if x.src(l) == recv+".toWait" {
+							x.fail(v, "%s: assignment to toWait", what)
+						}
+					}
+				}
+				return true
+			})
+			switch v := st.(type) {
+			case *ast.IncDecStmt:
+				if x.src(v.X) == recv+".toWait" {
+					if v.Tok != token.DEC {
+						x.fail(v, "%s: toWait++", what)
+					}
+					dec++
+				}
+			case *ast.AssignStmt:
+				if v.Tok == token.ASSIGN && len(v.Lhs) == 1 && len(v.Rhs) == 1 && x.src(v.Rhs[0]) == "nil" {
+					if sel, ok := v.Lhs[0].(*ast.SelectorExpr); ok && x.src(sel.X) == recv {
+						nilled[sel.Sel.Name] = true
+					}
+				}
+			}
+		}
+		if total != dec {
+			x.t.errs = append(x.t.errs, what+": toWait is changed conditionally (not at the top level of the block)")
+		}
+		return
+	}
+	var sel *ast.SelectStmt
+	for _, st := range loop.Body.List {
+		if s, ok := st.(*ast.SelectStmt); ok {
+			sel = s
+		} else {
+			x.fail(st, "awaitRun: statement beside the select %s", x.src(st))
+		}
+	}
+	if sel == nil {
+		x.fail(loop, "awaitRun: no select in the loop")
+		return
+	}
+	var rows []string
+	for _, cl := range sel.Body.List {
+		cc := cl.(*ast.CommClause)
+		ch := ""
+		switch c := cc.Comm.(type) {
+		case *ast.AssignStmt:
+			if len(c.Rhs) == 1 {
+				if u, ok := c.Rhs[0].(*ast.UnaryExpr); ok && u.Op == token.ARROW {
+					if se, ok := u.X.(*ast.SelectorExpr); ok && x.src(se.X) == recv {
+						ch = se.Sel.Name
+					}
+				}
+			}
+		case *ast.ExprStmt:
+			if u, ok := c.X.(*ast.UnaryExpr); ok && u.Op == token.ARROW {
+				if se, ok := u.X.(*ast.SelectorExpr); ok && x.src(se.X) == recv {
+					ch = se.Sel.Name
+				}
+			}
+		}
+		if ch == "" {
+			x.fail(cc, "awaitRun: a case that does not receive from a channel field of the handle")
+			continue
+		}
+		dec, nilled := count(cc.Body, "case <-"+ch)
+		rows = append(rows, fmt.Sprintf("(%q, %d, %v)", ch, dec, nilled[ch]))
+	}
+	sort.Strings(rows)
+	// checkAllInstancesAreFinished after its guard
+	ca := startupFindMethod(x.pkg, "runAwaitHandle", "checkAllInstancesAreFinished")
+	if ca == nil {
+		return
+	}
+	crecv := ca.Recv.List[0].Names[0].Name
+	var after []ast.Stmt
+	for i, st := range ca.Body.List {
+		if is, ok := st.(*ast.IfStmt); ok && is.Else == nil && len(is.Body.List) == 1 {
+			if rs, isR := is.Body.List[0].(*ast.ReturnStmt); isR && len(rs.Results) == 0 {
+				after = ca.Body.List[i+1:]
+				break
+			}
+		}
+	}
+	save := recv
+	recv = crecv
+	dec, nilled := count(after, "checkAllInstancesAreFinished")
+	recv = save
+	fmt.Fprintf(b, "/-- regenerated from `core/engine/engine.go` `(*instancePool).newAwaitRunHandle`: the initial value of `toWait` (results the\nawait loop of the pool waits for) -/\ndef resultsToWait : Int := %s\n\n", initial)
+	fmt.Fprintf(b, "/-- regenerated from `(*runAwaitHandle).awaitRun`: its loop goes on while (`%s`) -/\ndef awaitLoopGoesOn (toWait : Int) : Bool := %s\n\n", x.src(loop.Cond), cond)
+	fmt.Fprintf(b, "/-- regenerated from the select of `awaitRun`: for every case (channel field received from, sorted) how often `toWait--` runs\nunconditionally in it and whether the case takes its channel out of the select (`ah.<ch> = nil`) -/\ndef awaitCases : List (String × Nat × Bool) := [%s]\n\n", strings.Join(rows, ", "))
+	fmt.Fprintf(b, "/-- regenerated from `checkAllInstancesAreFinished`, after its guard: how often `toWait--` runs and whether `runRes` is taken out\nof the select -/\ndef allFinishedToWait : Nat × Bool := (%d, %v)\n\n", dec, nilled["runRes"])
+}
+
 func startupExtra(t *tr) string {
 	var b strings.Builder
 	b.WriteString("open Pandora.Go.C12\n\n")
@@ -1989,6 +2160,7 @@ func startupExtra(t *tr) string {
 		x.finishCallback(&b, builderArgs)
 		x.startupOtherResults(&b)
 		x.startupPoolRun(&b)
+		x.startupToWait(&b)
 	}
 	x.engineRun(&b)
 	x.passThrough(&b)
